@@ -24,6 +24,8 @@ def featCause (o : Json) : String :=
   else if hasFeat o "af" "boards:in-one-line-map" then "boards-in-one-line-map"
   else if hasFeat o "af" "boards:not-last" then "boards-not-last"
   else if hasFeat o "af" "boards:comment-after-board" then "boards-comment-after"
+  else if hasFeat o "af" "text:backslash-crlf" then "backslash-crlf"
+  else if hasFeat o "af" "text:crlf-block-string" then "crlf-block-string"
   else "unexplained"
 
 /-- model checks on one fragment case; `none` = agreement -/
@@ -71,7 +73,7 @@ def handleC03 (j : Json) : Except String Verdict := do
     | .ok ja => match nodeOf ja with
         | .ok a => match whyV true a with
             | some w => w
-            | none => if hasFeat o "af1" "array:one-line-text-multi-range" || hasFeat o "af" "array:one-line-text-multi-range" then "array-eol" else "unexplained"
+            | none => featCause o
         | .error _ => featCause o
     | .error _ => featCause o
   match getStr o "p2err" with
